@@ -51,10 +51,8 @@ THEOREMS = [
     "PV.C09.marker_range_breaks_eof_offset",
     "PV.C09.mode_names",
 ]
-_LEXSHIFT = os.path.join(core.LEAN, "PV", "C09", "LexShift.lean")
-if os.path.exists(_LEXSHIFT):
-    LEAN_TARGETS.append("PV.C09.LexShift")
-    THEOREMS.append("PV.C09.lex_shift")
+_LEXSHIFT = os.path.join(core.LEAN, "PV", "C09", "LexShift.lean")     # lexer model builder; imported by PV/C09/Thm.lean
+THEOREMS += ["PV.C09.lex_shift", "PV.C09.lex_shift_of_fit", "PV.C09.lexRaw_shift", "PV.C09.softKwGo_shift"]
 
 TRUSTED = [
     "Lean 4.33.0 kernel; axioms limited to propext, Classical.choice, Quot.sound",
@@ -77,9 +75,10 @@ PARTIAL = [
     "marker_range_breaks_eof_offset / marker_range_breaks_module_range are the model witnesses; listed as known findings",
     "parse_tokens_of_lex_full is FALSE with full-lexer (parse_tokens_of_lex_fails): Parse::parse_tokens does not filter "
     "Comment/NonLogicalNewline; proved instead: parse_tokens_of_lex_partial (no full-lexer, or no trivia in the stream)",
-    "lexer-level translation lex k src = shift k (lex 0 src) is PV.C09.lex_shift (lean/PV/C09/LexShift.lean, lexer model builder)"
-    + ("" if os.path.exists(_LEXSHIFT) else " — PENDING, not part of this run") +
-    "; here it is hypothesis ShiftEnv.lex and is checked on the real lexer by the `lexes` streams",
+    "lexer-level translation is PV.C09.lex_shift (lean/PV/C09/LexShift.lean, on the lexer MODEL of PV/Lexer, whose tie to lexer.rs "
+    "is the C05 correspondence): lex k src = shift k (lex 0 src) provided the end offset fits u32; in the entry-point model it "
+    "is the hypothesis ShiftEnv.lex (the two models are not yet composed into one term), and the real lexer is checked "
+    "against the shift relation directly by the `lexes` streams",
     "that the real LALRPOP parser is translation-equivariant (ShiftEnv.parse), the f-string sub-parser's absolute offsets "
     "(string.rs parse_fstring_expr), and the cross-mode facts (expression-mode tree = value of the module's expression "
     "statement, interactive body = module body) are differential checks on the real code, not theorems",
@@ -98,7 +97,7 @@ LEVEL_TEXT = ("Machine-checked Lean 4 theorems, for every parser and lexer plugg
               "calls per text and offset through both, and the real code is judged directly by an independent Python oracle "
               "(shift relation, cross-mode and projection relations) in the default, all-nodes-with-ranges and full-lexer builds.")
 LEVEL_NOTE = ("Trusted: Lean kernel, the translator and {:?} readers, the harness. Not proved: translation-equivariance of the "
-              "real lexer (pending PV.C09.lex_shift) and of the LALRPOP parser, f-string offset threading, cross-mode grammar "
+              "real lexer (PV.C09.lex_shift proves it of the lexer model) and of the LALRPOP parser, f-string offset threading, cross-mode grammar "
               "facts — these are differential streams judged by the oracle.")
 RULE = ("one request = one text x one start offset, answered with every public entry point at offset 0 and at offset k "
         "(about 520 calls); distinct = distinct request line; non-trivial = non-empty text")
